@@ -7,6 +7,7 @@
 -/
 import Rl2tp.Proofs.Sim2
 import Rl2tp.Proofs.RevealTotal
+import Rl2tp.Proofs.Checked
 namespace Rl2tp.C02
 
 /-- every request issued while decoding a message has its precondition satisfied -/
@@ -45,6 +46,33 @@ theorem payload_any_reader {ρ : Type} [Rdr ρ] {abs : ρ → Bytes} (hc : Confo
     (∃ a r', (decodeAvp t : M ρ DErr AVP) r = .ok a r' ∧ (decodeAvp t : M Bytes DErr AVP) (abs r) = .ok a (abs r')) ∨
     (∃ e r', (decodeAvp t : M ρ DErr AVP) r = .err e r' ∧ (decodeAvp t : M Bytes DErr AVP) (abs r) = .err e (abs r')) :=
   decodeAvp_any_reader hc t r
+
+/-! ### "every call issued to R has its precondition satisfied", for every conforming R
+
+`Checked ρ` (Proofs/Checked.lean) passes a request on to the wrapped reader only when it lies within what that reader
+reports as left, and turns any other unchecked request into a fault.  The decoder run over `Checked ρ` never faults:
+not one request of the run — fixed-width read, skip, sub-range — was out of contract.  This is a statement about
+the calls, not only about the result: a poisoned answer that the decoder later discards would still have been a fault. -/
+
+theorem decode_calls_in_contract {ρ : Type} [Rdr ρ] {abs : ρ → Bytes} (hc : Conforms ρ abs) (o : Opts) (r : ρ) (f : Fault) :
+    (decode o : M (Checked ρ) (List DErr) Msg) ⟨r⟩ ≠ .fault f :=
+  Sim.noFault (decode_sim (checked_conforms hc) o) (fun s g => decode_contract o s g) ⟨r⟩ f
+
+theorem greedy_calls_in_contract {ρ : Type} [Rdr ρ] {abs : ρ → Bytes} (hc : Conforms ρ abs) (r : ρ) (f : Fault) :
+    (greedy : M (Checked ρ) DErr (List Res)) ⟨r⟩ ≠ .fault f :=
+  Sim.noFault (greedy_sim (checked_conforms hc)) (fun s g => greedy_contract s g) ⟨r⟩ f
+
+theorem payload_calls_in_contract {ρ : Type} [Rdr ρ] {abs : ρ → Bytes} (hc : Conforms ρ abs) (t : UInt16) (r : ρ) (f : Fault) :
+    (decodeAvp t : M (Checked ρ) DErr AVP) ⟨r⟩ ≠ .fault f :=
+  Sim.noFault (decodeAvp_sim (checked_conforms hc) t) (fun s g => payload_contract t s g) ⟨r⟩ f
+
+/-- … and the wrapper is not in the way: through it the decoder returns what it returns on the cursor -/
+theorem decode_checked_result {ρ : Type} [Rdr ρ] {abs : ρ → Bytes} (hc : Conforms ρ abs) (o : Opts) (r : ρ) :
+    (∃ m r', (decode o : M (Checked ρ) (List DErr) Msg) ⟨r⟩ = .ok m r' ∧
+        (decode o : M Bytes (List DErr) Msg) (abs r) = .ok m (abs r'.inner)) ∨
+    (∃ es r', (decode o : M (Checked ρ) (List DErr) Msg) ⟨r⟩ = .err es r' ∧
+        (decode o : M Bytes (List DErr) Msg) (abs r) = .err es (abs r'.inner)) :=
+  decode_any_reader (checked_conforms hc) o ⟨r⟩
 
 /-! ### non-vacuity: a conforming reader that is *not* the cursor.
     `Poison` never refuses: out of contract it answers 0xA5… and jumps to the end (what the harness's
@@ -119,5 +147,13 @@ example (o : Opts) (b : Bytes) :
     (∃ m r', (decode o : M Poison (List DErr) Msg) ⟨b, 0⟩ = .ok m r' ∧ (decode o : M Bytes (List DErr) Msg) b = .ok m r'.rest) ∨
     (∃ es r', (decode o : M Poison (List DErr) Msg) ⟨b, 0⟩ = .err es r' ∧ (decode o : M Bytes (List DErr) Msg) b = .err es r'.rest) :=
   decode_any_reader poison_conforms o ⟨b, 0⟩
+
+/-- the policed poison reader: every request the decoder makes of it is in contract, for every input and option set -/
+example (o : Opts) (b : Bytes) (f : Fault) : (decode o : M (Checked Poison) (List DErr) Msg) ⟨⟨b, 0⟩⟩ ≠ .fault f :=
+  decode_calls_in_contract poison_conforms o ⟨b, 0⟩ f
+
+/-- the wrapper does police: an unchecked 2-octet read with one octet left is a fault, although `Poison` itself would
+    have answered 0xA5A5 -/
+example : (Rdr.u16 (⟨⟨[7], 0⟩⟩ : Checked Poison)).isOk = false ∧ (Rdr.u16 (⟨[7], 0⟩ : Poison)).isOk = true := by decide
 
 end Rl2tp.C02
